@@ -30,7 +30,8 @@ def weight(img: darsia.Image, weight: Union[float, int, darsia.Image]) -> darsia
     """
     weighted_img = img.copy()
     if isinstance(weight, float) or isinstance(weight, int):
-        weighted_img.img *= weight
+        # NOTE: Not in-place, such that the data type is promoted as for plain arrays.
+        weighted_img.img = weighted_img.img * weight
 
     elif isinstance(weight, darsia.Image):
         equal_coordinate_system, log = darsia.check_equal_coordinatesystems(
